@@ -22,9 +22,12 @@ RULE = ("randomly generated well-formed definitions (1-10 units; identifiers fro
         "type,check); non-trivial = every generated type")
 
 
-def gen_group(g, idx, rng):
+SHAPES = ["basic_ref", "basic_noref", "single", "prod", "square", "quot", "recip", "basic_ref"]
+
+
+def gen_group(g, idx, rng, shape=None):
     """A group = list of definitions living in one module."""
-    shape = rng.choice(["basic_ref", "basic_ref", "basic_noref", "single", "prod", "square", "quot", "recip"])
+    shape = shape or rng.choice(SHAPES)
     defs = []
     if shape in ("basic_ref", "basic_noref", "single"):
         defs.append(g.definition({"basic_ref": "ref", "basic_noref": "noref", "single": "single"}[shape]))
@@ -263,7 +266,7 @@ def generate(seed, n_groups):
     g = defgen.DefGen(rng)
     groups = []
     for i in range(n_groups):
-        groups.append(gen_group(g, i, rng))
+        groups.append(gen_group(g, i, rng, SHAPES[i % len(SHAPES)]))      # every shape in every run
     return groups
 
 
@@ -290,10 +293,29 @@ def main(tier, seed, nproc, t0):
             for c in cdirs:
                 pl.cleanup(c)
     adversarial(total, seed)
+    synthetic_universe(total)
     return fw.finish(PID, tier, seed, total, t0, RULE, min_evals=200,
                      assumptions=["the generator's grammar: ASCII word identifiers without digits, literals without suffix/exponent, <= 15 significant digits, "
                                   "unsuffixed integer literals <= i32::MAX (see DESIGN.md 4.4)",
                                   "independent model of the declared semantics in tools/defgen.py"])
+
+
+def synthetic_universe(total):
+    """The hand-written synthetic definitions compiled into x_core are macro-generated types too:
+    their registries are judged against tables/synthetic.json with the same model."""
+    import declared
+    env = cl.prepare(("f64", "dec"), ("x_core",))
+    for b in ("f64", "dec"):
+        reg = env[b]["reg"]
+        for name, d in declared.synthetic().items():
+            ent = reg[name]
+
+            def viol(kind, key, text, case=None):
+                sig = {"backend": b, "kind": kind, "type": key, "class": {"kind": kind, "backend": b, "type": key}}
+                total.violation(sig, "C11 %s: %s %s: %s" % (kind, b, key, text), {"module": "c11", "backend": b, "kind": "synthetic", "type": key})
+            c09.judge_registry(total, b, name, ent, decl=declared_for(d, d["attrs"]))
+            judge_attrs(total, b, name, ent, d, d["attrs"], viol)
+            total.cell(b, "synthetic", name, "registry")
 
 
 ADV_INT = """use quantities::prelude::*;
